@@ -324,7 +324,7 @@ def get_switched_peak_array_indices(values, tol=0.0):
     -------
     array_like
     """
-    peak_indices = get_peak_array_indices(values)
+    peak_indices = np.unique(get_peak_array_indices(values))  # a constant series reports its first sample twice
     peak_values = np.take(values, peak_indices)
 
     last = peak_values[0]
@@ -348,8 +348,6 @@ def get_switched_peak_array_indices(values, tol=0.0):
     if len(peak_values_set):  # add last
         i_max_set = np.argmax(np.abs(peak_values_set))
         new_peak_indices.append(peak_indices_set[i_max_set])
-        peak_values_set.append(peak_values[i])
-        peak_indices_set.append(i)
 
     switched_peak_indices = np.take(peak_indices, new_peak_indices)
     return switched_peak_indices
